@@ -38,6 +38,37 @@ def _wrap(x, dtype):
 def reducer_apply(name, group, dtype):
     """group: list of (position, value) of the non-missing elements, in order -> result (or the marker EMPTY)"""
     vals = [v for _, v in group]
+    if dtype.startswith("complex"):
+        key = lambda z: (z.real, z.imag)        # NumPy orders complex numbers lexicographically
+        if name == "count":
+            return len(vals)
+        if name == "count_nonzero":
+            return sum(1 for v in vals if v != 0)
+        if name in ("any", "all"):
+            return (any if name == "any" else all)(v != 0 for v in vals)
+        if name == "sum":
+            s = complex(0.0, 0.0)
+            for v in vals:
+                s = s + v
+            return s
+        if name == "prod":
+            s = complex(1.0, 0.0)
+            for v in vals:
+                s = s * v
+            return s
+        if name in ("min", "max"):
+            if not vals:
+                raise Refuse("identity of complex min/max")
+            return min(vals, key=key) if name == "min" else max(vals, key=key)
+        if name in ("argmin", "argmax"):
+            if not group:
+                return -1
+            best = None
+            for p, v in group:
+                if best is None or (key(v) < key(best[1]) if name == "argmin" else key(v) > key(best[1])):
+                    best = (p, v)
+            return best[0]
+        raise ValueError(name)
     isfloat = dtype.startswith("float")
     acc = "uint64" if dtype.startswith("uint") else "int64"
     if name == "count":
